@@ -5,6 +5,10 @@ pub type VmTag = u32;
 pub struct Generation(pub i32);
 impl Clone for Generation { fn clone(&self) -> (r: Generation) ensures r == *self { Generation(self.0) } }
 impl Copy for Generation {}
+// real: #[derive(Default)] on Generation(i32)
+impl Generation {
+    pub fn default() -> (r: Generation) ensures r.0 == 0 { Generation(0) }
+}
 
 // GcPtr<T>: opaque; every heap object has the generation of the heap that allocated it
 #[verifier::external_body]
